@@ -393,7 +393,7 @@ func consGenFamily(tier string) *FamilySpec {
 // C06 — consumer-side range/pull code.
 func C06(tier string) *core.Report {
 	r := core.NewReport("C06", tier)
-	for _, fr := range runFamilies(r, []*FamilySpec{consFamily(tier)}, tier) {
+	for _, fr := range runFamilies(r, []*FamilySpec{consFamily(tier), itypeFamily(tier)}, tier) {
 		for _, f := range fr.Divergences("lockstep", "panic", "lockstep-under-panic", "fatal", "nondet", "nondet-ref") {
 			r.Fail(f)
 		}
